@@ -86,15 +86,17 @@ def run_requests(ck, exe, reqs, jobs):
     return lp
 
 
-def judge_selftest(ck, recs):
+def judge_selftest(ck, recs, rejected_idx):
     """The judge must reject corrupted copies of a successful record, clause by clause (binding self-test:
     a clause that cannot fire would make the contract vacuous)."""
     import copy
     base = None
     for want_all in (True, False):
-        for r in recs:
+        for ir, r in enumerate(recs, 1):
             q = r["req"]
             o = r.get("out")
+            if ir in rejected_idx:
+                continue
             if o and o["status"] == 0 and not o["exception"] and q["nvar"] == 2 and len(o["model"]["covs"]) >= 2 and not q["cons"] \
                     and q["csill"] == 0 and not q["optrow"] and q["ndim"] == 2 and o["model"]["covs"][-1]["hasrange"] == 1 \
                     and o["model"]["covs"][-1]["anis"] > 100000 and q["entry"] == "fit" \
@@ -104,6 +106,9 @@ def judge_selftest(ck, recs):
         if base:
             break
     if base is None:
+        if rejected_idx:
+            ck.cov["judge_selftest_corruptions_rejected"] = "skipped: every suitable record is itself rejected"
+            return
         raise Broken("no record suitable for the self-test of the judge")
     cases = []
 
@@ -228,7 +233,7 @@ def run(tier):
             rejected.append(e)
     if gaps is None:
         raise Broken("TraceFitContract did not report the coverage gaps")
-    judge_selftest(ck, recs)
+    judge_selftest(ck, recs, set(e["idx"] for e in rejected))
     nok = nfail = nexc = ncrash = 0
     per_entry = collections.defaultdict(lambda: [0, 0])
     slow = 0
@@ -289,7 +294,7 @@ def run(tier):
     ck.cov["requests_slower_than_20s"] = slow
     ck.cov["rejected_by_contract"] = len(rejected)
     ck.cov["per_entry_nvar_ok_fail"] = dict(per_entry)
-    ck.cov["rule"] = ("request = base request (3 bases x nvar 1..3) varied in %s among entry point, geometry, true model, recipe, "
+    ck.cov["rule"] = ("request = base request (4 bases x nvar 1..3) varied in %s among entry point, geometry, true model, recipe, "
                       "empty lags, structures, constraint set, constant sill, option row, weighting, max iterations; each executed "
                       "on the real fitting entry points in its own process; each outcome judged by TLC with Violations(request, outcome); "
                       "TLC also lists the categories without a successful fit (none allowed)"
